@@ -7,7 +7,14 @@
 macro_rules! bail { ($($t:tt)*) => { return Err(Error { cause: 9 }) } }
 macro_rules! trace { ($($t:tt)*) => { () } }
 macro_rules! format { ($($t:tt)*) => { Msg(0) } }
-pub mod tracing { macro_rules! trace_ { ($($t:tt)*) => { () } } pub(crate) use trace_ as trace; }
+pub mod tracing {
+    macro_rules! trace { ($($t:tt)*) => { () } }
+    macro_rules! debug { ($($t:tt)*) => { () } }
+    macro_rules! info { ($($t:tt)*) => { () } }
+    macro_rules! warn_ { ($($t:tt)*) => { () } }
+    macro_rules! error { ($($t:tt)*) => { () } }
+    pub(crate) use {trace, debug, info, warn_ as warn, error};
+}
 use std::future::Future;
 use std::sync::atomic::{AtomicU32, Ordering};
 
